@@ -108,7 +108,7 @@ func GenWorld(r *Rng, s WorldSpec) World {
 			if c.Labels == nil {
 				c.Labels = map[string]string{}
 			}
-			for k, n := 0, 30+cr.Intn(15); k < n; k++ {
+			for k, n := 0, 30+cr.Intn(15)+cr.Intn(2)*cr.Intn(50); k < n; k++ {
 				c.Labels[fmt.Sprintf("k%02d", k)] = fmt.Sprint(k % 3)
 			}
 		}
